@@ -17,7 +17,7 @@ SPEC = {
         ('K-prune(frame)', 'prune', 'prune:(delayed-frame|scores-and-stop|loop-.*untouched)'),
         ("non-emitting search files candidates under their own key in (column, depth)", 'ne_inner', r'^(file:|ne-inner:(layer|nothing|only-live))')],
     'bounded': [
-        ('well-formed-after-histories', suites.case_C09, 1500, 25000, RULE + '; ' + 'non-trivial = history of >= 2 operations (match, extend, widen, continue_with_distance after an early stop)', 'histories <= 4 operations')],
+        ('well-formed-after-histories', suites.case_C09, 1500, 200000, RULE + '; ' + 'non-trivial = history of >= 2 operations (match, extend, widen, continue_with_distance after an early stop)', 'histories <= 4 operations')],
 }
 
 
